@@ -310,14 +310,32 @@ def op_get_module_contents(d):
 
 def op_openapi(d):
     import cdd.compound.openapi.emit
+    import cdd.json_schema.emit
+    from cdd.compound.openapi.utils.emit_openapi_utils import NameModelRouteIdCrud
+
+    def schema(name):
+        return cdd.json_schema.emit.json_schema(dict(deepcopy(fixed_ir()), name=name), "https://example.com/%s.json" % name)
 
     doc = cdd.compound.openapi.emit.openapi(
         [
-            dict(name="Config", model=dict(fixed_ir(), name="Config"), route="/api/config", id="alpha", crud="CRD"),
-            dict(name="User", model=dict(fixed_ir(), name="User"), route="/api/user", id="alpha", crud="CR"),
+            NameModelRouteIdCrud(name="Config", model=schema("Config"), route="/api/config", id="alpha", crud="CRD"),
+            NameModelRouteIdCrud(name="User", model=schema("User"), route="/api/user", id="alpha", crud="CR"),
         ]
     )
     return json.dumps(doc)
+
+
+def op_parse_json_schema_and_sqlalchemy(d):
+    import cdd.json_schema.emit
+    import cdd.json_schema.parse
+    import cdd.sqlalchemy.parse
+    from mc import formats as F
+
+    sch = cdd.json_schema.emit.json_schema(deepcopy(fixed_ir()), "https://example.com/cfg.json")
+    a = cdd.json_schema.parse.json_schema(json.loads(json.dumps(sch)))
+    text = F.render(F.emit_ast("sqlalchemy", deepcopy(fixed_ir()), "rest", True))
+    b = cdd.sqlalchemy.parse.sqlalchemy(ast.parse(text).body[0])
+    return ir_text(a) + "\n" + ir_text(b)
 
 
 OPS = OrderedDict(
@@ -340,5 +358,7 @@ OPS = OrderedDict(
         ("sync", op_sync),
         ("import_openapi_emit_utils", op_import_openapi_emit_utils),
         ("get_module_contents", op_get_module_contents),
+        ("openapi", op_openapi),
+        ("parse_json_schema_and_sqlalchemy", op_parse_json_schema_and_sqlalchemy),
     )
 )
